@@ -79,7 +79,7 @@ func (b *bucket) Get(ctx context.Context, path string) (storage.ReadObjectCloser
 	}
 	// we could use fileInfo.Name() however we might as well use the externalPath
 	return newReadObjectCloser(
-		path,
+		normalpath.Normalize(path),
 		externalPath,
 		file,
 	), nil
@@ -95,7 +95,7 @@ func (b *bucket) Stat(ctx context.Context, path string) (storage.ObjectInfo, err
 	}
 	// we could use fileInfo.Name() however we might as well use the externalPath
 	return storageutil.NewObjectInfo(
-		path,
+		normalpath.Normalize(path),
 		externalPath,
 		// In storageos, the external path is also the local path.
 		externalPath,
